@@ -82,6 +82,11 @@ class C10(Check):
             g = self._evolve_group(rng, uni)
             if g:
                 groups.append(g)
+        if rng.random() < 0.2:
+            # reads that find nothing (a root namespace directory without definition files; read_files without targets), with
+            # the caller modifying the returned lists in between: every call returns lists of its own
+            groups.append({"kind": "empty", "dirs": ["w/e8/void_ns", "w/e9/blank_ns"], "look": [x for x in range(nroots) if rng.random() < 0.5],
+                           "order": rng.choice(["rn,rf,rn,rf", "rf,rn,rf,rn", "rn,rn,rf,rf"])})
         if mode < 0.25:
             groups.append(self._rn_group(rng, uni, rng.randrange(nroots), fault=rng.choice(["nested_sub", "nested_parent", "case", "same", "case_ok", "same_nested", "same_sub", "nested_samename"])))
         nrf = rng.randint(1, 2)
@@ -294,6 +299,9 @@ class C10(Check):
                 if g["kind"] == "evolve":
                     self._run_evolve(out, w, uni, g, gi, dir_to_root, faults)
                     continue
+                if g["kind"] == "empty":
+                    self._run_empty(out, w, uni, g, gi, faults)
+                    continue
                 canons = []
                 variants = set()
                 for oi, op in enumerate(g["ops"]):
@@ -375,6 +383,34 @@ class C10(Check):
                     out.fail("C10.complete", "group %d: after the definitions %s were %s (same process, same directory) read_namespace returned %s, the directory holds %s" % (gi, hidden, name, got, want), "evolve-stale:" + name)
         finally:
             show()
+
+    def _run_empty(self, out, w, uni, g, gi, faults) -> None:
+        import os
+        faults.add("empty-reads")
+        for d in g["dirs"]:
+            os.makedirs(w.abs(d), exist_ok=True)
+        look = [{"p": uni.roots[x]["dir"]} for x in g["look"] if x < len(uni.roots)]
+        n = 0
+        junk = object()
+        for step in g["order"].split(","):
+            if step == "rn":
+                res = w.run_read({"op": "rn", "root": {"p": g["dirs"][n % 2]}, "lookups": look, "key": None, "cwd": ""})
+                n += 1
+                lists = [res["direct"]] if res["ok"] else []
+            else:
+                res = w.run_read({"op": "rf", "files": [], "roots": [{"p": r0["dir"]} for r0 in uni.roots], "lookups": look, "key": None, "cwd": ""})
+                lists = [res["direct"], res["transitive"]] if res["ok"] else []
+            out.stats["reads"] += 1
+            out.obs.append([gi, step, "ok" if res["ok"] else type(res["exc"]).__name__])
+            if not res["ok"]:
+                out.fail("C10.complete", "group %d: a read that has nothing to read (%s) raised %s: %s" % (gi, step, type(res["exc"]).__name__, str(res["exc"])[:200]), "empty-rejected:" + type(res["exc"]).__name__)
+                continue
+            for lst in lists:
+                if not isinstance(lst, list) or lst:
+                    out.fail("C10.complete", "group %d: a read that has nothing to read (%s) returned %r" % (gi, step, [str(x) for x in lst] if isinstance(lst, list) else type(lst).__name__), "empty-not-empty")
+                if isinstance(lst, list):
+                    lst.append(junk)  # the caller goes on to use its list (types = read_namespace(a); types += read_namespace(b))
+                    lst.extend(["marker", 42])
 
     def _args(self, op):
         for k in ("root", "lookups", "files", "roots"):
@@ -496,7 +532,7 @@ class C10(Check):
     def simplify(self, scn: dict):
         # fewer executions per group, drop formatting
         for gi, g in enumerate(scn.get("groups", [])):
-            if len(g["ops"]) > 2:
+            if len(g.get("ops", [])) > 2:
                 for i in range(len(g["ops"])):
                     c = copy.deepcopy(scn)
                     del c["groups"][gi]["ops"][i]
